@@ -64,6 +64,12 @@ def _build():
         _add('attr[p=%d]' % p, Q(items=[attr('name'), NR]), ha, quick=True)
         _add('attr-where[p=%d]' % p, Q(items=[fa(1), attr('name')], where=("a.name != 'x'", lambda e: e.an('name') != 'x')), ha)
         _add('attr-update[p=%d]' % p, Q(update=[('a.name', p, "'z'", lambda e: 'z')]), ha, quick=(p == 2))
+    # a one-character name: the symbolic neighbours (any Unicode, len <= 2) then range over its padded / case / prefix variants (' n', 'n ', 'N', 'nn')
+    for p in (0, 1, 2):
+        ha = [None, None, None]
+        ha[p] = 'n'
+        _add('attr-short[p=%d]' % p, Q(items=[attr('n'), NR]), ha, quick=(p != 1))
+    _add('attr-short-join[b]', Q(items=[attr('n', 'b'), attr('n')], join=Join('JOIN', [(0, 0)], 'a1 == b1')), ['k', 'n'], a=['ks', 'ks'], quick=True, b=['kss', 'kss'], hb=['j', None, 'n'], krange=2)
     # a["name"] / a['name'] with hostile concrete names at every position
     n = 0
     for nm in HOSTILE_NAMES:
